@@ -19,11 +19,19 @@ pub struct Ctx {
     pub default_continue: bool,
     pub decisions: u32,
     pub want_msgs: bool,
+    pub deep: bool, // values are not spelled out in the trace (nesting limits of the JSON readers)
 }
 
 thread_local! {
     pub static CTX: RefCell<Ctx> = RefCell::new(Ctx { events: Vec::new(), next_id: 1, script: Vec::new(), pos: 0,
-        default_continue: true, decisions: 0, want_msgs: false });
+        default_continue: true, decisions: 0, want_msgs: false, deep: false });
+}
+
+pub fn set_deep(deep: bool) {
+    CTX.with(|c| c.borrow_mut().deep = deep);
+}
+fn is_deep() -> bool {
+    CTX.with(|c| c.borrow().deep)
 }
 
 pub fn reset_ctx(script: &[bool], default_continue: bool, want_msgs: bool) {
@@ -213,7 +221,10 @@ fn cf<T>(cont: bool, x: T) -> ControlFlow<T, T> {
 fn rec_error<V: IntoValue>(ety: &str, self_: Option<Vec<u32>>, error: ErrorKind<V>, location: ValuePointerRef) -> (bool, Vec<u32>) {
     let id = fresh_id();
     let want = CTX.with(|c| c.borrow().want_msgs);
-    let (det, mj, mq) = describe(error, location, want);
+    let (mut det, mj, mq) = describe(error, location, want && !is_deep());
+    if is_deep() {
+        det["actual"] = crate::enc::rec("null");
+    }
     let mut out = self_.clone().unwrap_or_default();
     out.push(id);
     let a = answer();
@@ -546,7 +557,7 @@ where
         push_event(json!({"e": "enter", "n": N, "loc": loc_j(location), "vk": vk, "sc": sc}));
         let r = T::deserialize_from_value(value, location);
         match &r {
-            Ok(x) => push_event(json!({"e": "exit", "n": N, "ok": true, "val": x.to_j(), "err": {"z": "none", "ids": []}})),
+            Ok(x) => push_event(json!({"e": "exit", "n": N, "ok": true, "val": if is_deep() { rv("unit") } else { x.to_j() }, "err": {"z": "none", "ids": []}})),
             Err(e) => push_event(json!({"e": "exit", "n": N, "ok": false, "val": rv("unit"), "err": peek_ids(e)})),
         }
         r.map(P)
